@@ -41,6 +41,8 @@ def corpus(tier, seed):
         std_spec("disc2", s + 30, 25, max_iteration=100),
         std_spec("rect3", s + 31, 50, reparameterisations={"q": "rescaletobounds"}, kills=[220]),
         std_spec("gauss2", s + 32, 50, plot=True),       # with the sampler's own plots enabled
+        # the option is accepted case-insensitively: every reader of it must agree on <log t>
+        std_spec("gauss2", s + 33, 25, shrinkage_expectation="LogT"),
     ]
     if tier == "thorough":
         k = 11
